@@ -73,6 +73,29 @@ fn gen_case(rng: &mut Rng) -> Case {
     }
     let kind = if rng.chance(3, 5) { "surround" } else { "inside" };
     let cshape = *rng.pick(&["rect", "rect", "circle", "ellipse"]);
+    if kind == "surround" {
+        // elements whose box has no area - an axis-parallel line, a rect of size zero - still have an extent
+        // that the surround must enclose, wherever they stand in the list
+        for i in 0..n {
+            if !rng.chance(1, 4) { continue; }
+            let b = nodes[i].bx;
+            let mut el;
+            let bx: B;
+            match rng.below(4) {
+                0 => { el = El::new("line"); bx = [b[0], b[1], b[2], b[1]]; }
+                1 => { el = El::new("line"); bx = [b[2], b[1], b[2], b[3]]; }
+                2 => { el = El::new("line"); bx = b; }
+                _ => { el = El::new("rect"); bx = [b[2], b[3], b[2], b[3]]; }
+            }
+            el.push("id", &format!("r{i}"));
+            if el.name == "line" {
+                for (k, v) in [("x1", bx[0]), ("y1", bx[1]), ("x2", bx[2]), ("y2", bx[3])] { el.push(k, &fstr_ref(v)); }
+            } else {
+                for (k, v) in native_el("rect", &bx) { el.push(&k, &v); }
+            }
+            nodes[i] = Node { el, bx };
+        }
+    }
     let mut refs: Vec<usize> = (0..n).filter(|_| rng.chance(2, 3)).collect();
     if refs.is_empty() {
         refs.push(rng.below(n));
@@ -241,7 +264,7 @@ fn stream(rep: &mut Report, drv: &mut Driver, rng: &mut Rng, n: usize) -> Result
             }
             Ok(Ok(out)) => {
                 let outs = match parse_elements(&out) { Ok(o) => o, Err(e) => { rep.violation(Violation { kind: "oracle", stream: orc.name.clone(), signature: "C12:unparseable".into(), what: e, replay: json!({"input": doc}), confirmed_on_impl: true }); continue; } };
-                let shapes: Vec<&OutEl> = outs.iter().filter(|o| ["rect", "circle", "ellipse"].contains(&o.el.name.as_str())).collect();
+                let shapes: Vec<&OutEl> = outs.iter().filter(|o| ["rect", "circle", "ellipse", "line"].contains(&o.el.name.as_str())).collect();
                 let imp: Vec<El> = shapes.iter().map(|o| o.el.clone()).collect();
                 let mdl: Vec<El> = m.iter().map(|f| El::decode(f)).collect();
                 if imp == mdl {
